@@ -66,6 +66,13 @@ def onWrite (w : World) : World :=
   let r := split [] data
   { w with rf := { offset := off + (data.length - r.2.length), lastSz := sz }, out := w.out ++ r.1 }
 
+/-- `rotatingFile.read` on a Write event when the first `Read` fails (a transient I/O error): the size was taken and
+recorded, the offset was reset if the file shrank, nothing was delivered and the offset did not advance -/
+def onWriteFailed (w : World) : World :=
+  let sz := w.file.length
+  let off := if sz < w.rf.lastSz || sz < w.rf.offset then 0 else w.rf.offset
+  { w with rf := { offset := off, lastSz := sz } }
+
 inductive FsOp where
   | append (bs : Str)     -- appended bytes (possibly a partial line), then its Write event
   | rotate                -- rename audit.log away (Rename), create an empty audit.log (Create)
